@@ -64,33 +64,21 @@ impl Drop for VirtualClock {
     }
 }
 
-/// # Safety
-/// Called by libc users with a valid `timespec` pointer, as the libc function it replaces.
-#[no_mangle]
-pub unsafe extern "C" fn clock_gettime(clk: libc::clockid_t, ts: *mut libc::timespec) -> libc::c_int {
+/// What the interposed `clock_gettime` must report for `clk` on this thread, or None to fall
+/// through to the real clock.
+pub fn virtual_timespec(clk: libc::clockid_t) -> Option<(i64, i64)> {
     let virt = VIRT_NANOS.try_with(|v| v.get()).unwrap_or(u64::MAX);
-    if virt != u64::MAX {
-        let (secs, nanos) = match clk {
-            libc::CLOCK_MONOTONIC | libc::CLOCK_BOOTTIME | libc::CLOCK_MONOTONIC_RAW | libc::CLOCK_MONOTONIC_COARSE => (
-                MONO_BASE_SECS + (virt / 1_000_000_000) as i64,
-                (virt % 1_000_000_000) as i64,
-            ),
-            libc::CLOCK_REALTIME | libc::CLOCK_REALTIME_COARSE => {
-                let base = VIRT_UNIX_BASE.try_with(|b| b.get()).unwrap_or(0);
-                (
-                    base as i64 + (virt / 1_000_000_000) as i64,
-                    (virt % 1_000_000_000) as i64,
-                )
-            }
-            _ => {
-                return libc::syscall(libc::SYS_clock_gettime, clk as libc::c_long, ts) as libc::c_int;
-            }
-        };
-        if !ts.is_null() {
-            (*ts).tv_sec = secs;
-            (*ts).tv_nsec = nanos;
-        }
-        return 0;
+    if virt == u64::MAX {
+        return None;
     }
-    libc::syscall(libc::SYS_clock_gettime, clk as libc::c_long, ts) as libc::c_int
+    match clk {
+        libc::CLOCK_MONOTONIC | libc::CLOCK_BOOTTIME | libc::CLOCK_MONOTONIC_RAW | libc::CLOCK_MONOTONIC_COARSE => {
+            Some((MONO_BASE_SECS + (virt / 1_000_000_000) as i64, (virt % 1_000_000_000) as i64))
+        }
+        libc::CLOCK_REALTIME | libc::CLOCK_REALTIME_COARSE => {
+            let base = VIRT_UNIX_BASE.try_with(|b| b.get()).unwrap_or(0);
+            Some((base as i64 + (virt / 1_000_000_000) as i64, (virt % 1_000_000_000) as i64))
+        }
+        _ => None,
+    }
 }
